@@ -82,9 +82,9 @@ def gen_case(rng, tier):
         case["repl"] = rng.choice(["!", r"<\g<0>>", "", r"\\", r"\t|"])
         if rng.random() < 0.4:
             case["pattern"] = rng.choice(["great", "a", "an", " "])
-        case["count"] = rng.choice([0, 0, 1, 2])
+        case["count"] = rng.choice([0, 0, 1, 2, -1])
     if f == "split":
-        case["maxsplit"] = rng.choice([0, 0, 1])
+        case["maxsplit"] = rng.choice([0, 0, 1, -1, 2])
     return case
 
 
